@@ -11,8 +11,10 @@ import (
 	"github.com/attestantio/go-eth2-client/spec/phase0"
 	"github.com/attestantio/vouch/internal/vnd"
 	"github.com/attestantio/vouch/internal/vstub"
+	nullmetrics "github.com/attestantio/vouch/services/metrics/null"
 	"github.com/attestantio/vouch/services/synccommitteeaggregator"
 	"github.com/prysmaticlabs/go-bitfield"
+	"github.com/rs/zerolog"
 	e2wtypes "github.com/wealdtech/go-eth2-wallet-types/v2"
 )
 
@@ -82,6 +84,57 @@ func (s *c15Submitter) SubmitSyncCommitteeContributions(_ context.Context, caps 
 	return nil
 }
 
+// c15Spec is the chain specification New reads its constants from.
+type c15Spec struct {
+	spec map[string]any
+}
+
+func (h *c15Spec) Spec(_ context.Context, _ *api.SpecOpts) (*api.Response[map[string]any], error) {
+	return &api.Response[map[string]any]{Data: h.spec, Metadata: map[string]any{}}, nil
+}
+
+// c15Accounts is the validating accounts provider New insists on; the
+// aggregator takes its accounts from the duty and never asks it.
+type c15Accounts struct{}
+
+func (c15Accounts) ValidatingAccountsForEpoch(_ context.Context, _ phase0.Epoch) (map[phase0.ValidatorIndex]e2wtypes.Account, error) {
+	return nil, errors.New("not used")
+}
+
+func (c15Accounts) ValidatingAccountsForEpochByIndex(_ context.Context, _ phase0.Epoch, _ []phase0.ValidatorIndex) (map[phase0.ValidatorIndex]e2wtypes.Account, error) {
+	return nil, errors.New("not used")
+}
+
+func (c15Accounts) SyncCommitteeAccountsForEpoch(_ context.Context, _ phase0.Epoch) (map[phase0.ValidatorIndex]e2wtypes.Account, error) {
+	return nil, errors.New("not used")
+}
+
+func (c15Accounts) SyncCommitteeAccountsForEpochByIndex(_ context.Context, _ phase0.Epoch, _ []phase0.ValidatorIndex) (map[phase0.ValidatorIndex]e2wtypes.Account, error) {
+	return nil, errors.New("not used")
+}
+
+// c15New builds the aggregator the way main does: through New, its constants
+// (the mainnet ones; none of them enters the aggregation) coming from the
+// chain specification. New leaves the recorded head roots empty.
+func c15New(label string, ct *vstub.ChainTime, roots *c15Roots, contribs *c15Contribs, sgn *c15CPSigner, sub *c15Submitter) *Service {
+	s, err := New(context.Background(),
+		WithLogLevel(zerolog.Disabled),
+		WithMonitor(&nullmetrics.Service{}),
+		WithSpecProvider(&c15Spec{spec: map[string]any{
+			"SLOTS_PER_EPOCH": ct.SPE, "SYNC_COMMITTEE_SIZE": uint64(512), "SYNC_COMMITTEE_SUBNET_COUNT": uint64(4),
+			"TARGET_AGGREGATORS_PER_SYNC_SUBCOMMITTEE": uint64(16),
+		}}),
+		WithChainTime(ct),
+		WithBeaconBlockRootProvider(roots),
+		WithContributionAndProofSigner(sgn),
+		WithValidatingAccountsProvider(c15Accounts{}),
+		WithSyncCommitteeContributionProvider(contribs),
+		WithSyncCommitteeContributionsSubmitter(sub),
+	)
+	vnd.Assert(err == nil && s != nil, label)
+	return s
+}
+
 // VerifC15_Aggregate: the aggregation job of a slot: for every (aggregator,
 // subcommittee) of the duty one signed contribution-and-proof is submitted, with
 // that validator as aggregator, the contribution obtained for that slot,
@@ -96,8 +149,7 @@ func VerifC15_Aggregate() {
 	contribs := &c15Contribs{failSub: []uint64{99, 1}[vnd.Choose("contribution.fails", 2)]}
 	sgn := &c15CPSigner{fail: vnd.Bool("sign.fail")}
 	sub := &c15Submitter{fail: vnd.Bool("submit.fail")}
-	s := &Service{beaconBlockRootProvider: roots, syncCommitteeContributionProvider: contribs, contributionAndProofSigner: sgn,
-		syncCommitteeContributionsSubmitter: sub, beaconBlockRoots: map[phase0.Slot]phase0.Root{}, chainTime: vstub.NewChainTime(0)}
+	s := c15New("C15.new.accepted", vstub.NewChainTime(0), roots, contribs, sgn, sub)
 	recorded := vnd.Bool("root-recorded-by-messenger")
 	rec := phase0.Root(vnd.Root("recorded"))
 	if recorded {
